@@ -12,6 +12,8 @@
 #include <kernel/geometry/mesh_file_reader.hpp>
 #include <kernel/geometry/mesh_file_writer.hpp>
 #include <kernel/geometry/partition_set.hpp>
+#include <kernel/geometry/common_factories.hpp>
+#include <kernel/geometry/boundary_factory.hpp>
 #include <kernel/util/exception.hpp>
 #include <kernel/util/xml_scanner.hpp>
 
@@ -27,8 +29,8 @@ using simfs::Bytes;
 namespace
 {
   struct FileEntry { std::string name; std::string type; Bytes bytes; Bytes charts; std::string chart_name; };   // charts: companion chart file parsed first (multi-file meshes)
-  std::vector<FileEntry> g_files[4];   // quad, tria, hexa, tetra
-  const char* g_types[4] = {"conformal:hypercube:2:2", "conformal:simplex:2:2", "conformal:hypercube:3:3", "conformal:simplex:3:3"};
+  std::vector<FileEntry> g_files[5];   // quad, tria, hexa, tetra, line (generated only)
+  const char* g_types[5] = {"conformal:hypercube:2:2", "conformal:simplex:2:2", "conformal:hypercube:3:3", "conformal:simplex:3:3", "conformal:hypercube:1:1"};
 
   struct Counters { uint64_t clean_roundtrips = 0, faulted = 0, rejected = 0, accepted = 0, must_reject = 0, bytes = 0, refills = 0, short_reads = 0, skipped_huge = 0, eof_early = 0; } CNT;
 
@@ -635,6 +637,38 @@ namespace
     }
   };
 
+  // generated mesh nodes (the property quantifies over "shipped files and generators"): a refined unit cube of the
+  // given shape with its boundary as a mesh part carrying an attribute, and a two-patch partition; serialised once with
+  // the real writer. This is the only source of 1D meshes.
+  template<typename Mesh_>
+  Bytes generated_node(Index level)
+  {
+    Geometry::RefinedUnitCubeFactory<Mesh_> fac(level);
+    auto node = Geometry::RootMeshNode<Mesh_>::make_unique(fac.make_unique());
+    Geometry::BoundaryFactory<Mesh_> bfac(*node->get_mesh());
+    auto part = bfac.make_unique();
+    {
+      typedef typename Geometry::MeshPart<Mesh_>::AttributeSetType AttrType;
+      const Index nv = part->get_num_entities(0);
+      std::unique_ptr<AttrType> at(new AttrType(nv, 2));
+      for(Index i = 0; i < nv; ++i) { (*at)(i, 0) = double(i) * 0.25; (*at)(i, 1) = -1.5 + double(i % 3u); }
+      part->add_attribute(std::move(at), "gen:attr");
+    }
+    node->add_mesh_part("gen:boundary", std::move(part));
+    Geometry::PartitionSet parts;
+    {
+      const Index ne = node->get_mesh()->get_num_elements();
+      Adjacency::DynamicGraph g(Index(2), ne);
+      for(Index e = 0; e < ne; ++e) g.insert(e < (ne + 2u) / 3u ? Index(0) : Index(1), e);
+      if(ne >= 2u) parts.add_partition(Geometry::Partition(g, "gen:two", 3, 0));
+    }
+    std::ostringstream os;
+    Geometry::MeshFileWriter writer(os);
+    writer.write(node.get(), (Geometry::MeshAtlas<Mesh_>*)nullptr, &parts);
+    const std::string t = os.str();
+    return Bytes(t.begin(), t.end());
+  }
+
   void load_files()
   {
     const char* dir = "/repo/data/meshes";
@@ -670,6 +704,9 @@ namespace
         if(head.find(std::string("mesh=\"") + g_types[t] + "\"") != std::string::npos) { g_files[t].push_back({n, g_types[t], b, Bytes(), ""}); typed = true; }
       if(!typed && head.find("mesh=\"") == std::string::npos) chart_files.push_back({n, "", b, Bytes(), ""});   // chart-only file
     }
+    for(Index l = 0; l < 4; ++l) g_files[4].push_back({"generated:unit-line-level-" + std::to_string(l), g_types[4], generated_node<Geometry::ConformalMesh<FEAT::Shape::Hypercube<1>>>(l), Bytes(), ""});
+    for(Index l = 0; l < 3; ++l) g_files[0].push_back({"generated:unit-square-quad-level-" + std::to_string(l), g_types[0], generated_node<Geometry::ConformalMesh<FEAT::Shape::Hypercube<2>>>(l), Bytes(), ""});
+    for(Index l = 0; l < 2; ++l) g_files[2].push_back({"generated:unit-cube-hexa-level-" + std::to_string(l), g_types[2], generated_node<Geometry::ConformalMesh<FEAT::Shape::Hypercube<3>>>(l), Bytes(), ""});
     // generated inputs: the only shipped SurfaceMesh chart is a 1.2 MB file; give the 3D unit cubes a small one (a
     // tetrahedron surface resp. an octahedron) so that this chart type takes part in every pipeline
     for(int t = 2; t < 4; ++t)
@@ -724,7 +761,7 @@ std::string harness_run()
   sim::clock_reset();
   sim::fault_setup("EOF_EARLY", {100, 300});
   CNT = Counters();
-  int shape = int(sim::cfg_weighted("shape", {5, 3, 3, 1}));
+  int shape = int(sim::cfg_weighted("shape", {10, 6, 6, 2, 1}));
   if(g_files[shape].empty()) sim::fail("INFRA", "no shipped mesh file of this shape found");
   size_t fi = size_t(sim::cfg_int("file", 0, 1 << 20)) % g_files[shape].size();
   const FileEntry& fe = g_files[shape][fi];
@@ -735,6 +772,7 @@ std::string harness_run()
     case 1: Kit<Geometry::ConformalMesh<FEAT::Shape::Simplex<2>>>::run(fe); break;
     case 2: Kit<Geometry::ConformalMesh<FEAT::Shape::Hypercube<3>>>::run(fe); break;
     case 3: Kit<Geometry::ConformalMesh<FEAT::Shape::Simplex<3>>>::run(fe); break;
+    case 4: Kit<Geometry::ConformalMesh<FEAT::Shape::Hypercube<1>>>::run(fe); break;
     }
   });
   sim::run_go();
